@@ -1,7 +1,8 @@
 CONSTANTS
   Leaves = {"l1", "l2", "l3"}
   CountAtSend = FALSE
+  CountThenMerge = FALSE
 SPECIFICATION MCSpec
-INVARIANTS CompleteAfterAll NoSilentError ErrorHasCause TimeoutOnlyIfMissing
+INVARIANTS CompleteAfterAll ResultComplete NoSilentError ErrorHasCause TimeoutOnlyIfMissing
 PROPERTIES ResultIsFinal
 CHECK_DEADLOCK FALSE
